@@ -42,13 +42,14 @@ type Tx struct {
 }
 
 type Plan struct {
-	Name    string       `json:"name"`
-	NAdmins int          `json:"nadmins"`
-	Audit   bool         `json:"audit"`
-	Seed    int64        `json:"seed"`
-	Blocks  [][]Tx       `json:"blocks"`
-	Views   map[int][]Tx `json:"views,omitempty"` // after block index i: view-execute these
-	Restart map[int]bool `json:"restart,omitempty"`
+	Name      string       `json:"name"`
+	NAdmins   int          `json:"nadmins"`
+	Audit     bool         `json:"audit"`
+	Seed      int64        `json:"seed"`
+	Blocks    [][]Tx       `json:"blocks"`
+	Views     map[int][]Tx `json:"views,omitempty"` // after block index i: view-execute these
+	Restart   map[int]bool `json:"restart,omitempty"`
+	RootPairs int          `json:"rootpairs,omitempty"` // C10: number of root-pair rounds instead of blocks
 }
 
 var contractsByName = lockstep.ContractsByName
@@ -416,6 +417,73 @@ func genPlan(rng *rand.Rand, surf []methodInfo, name string, focus string) *Plan
 	return p
 }
 
+// root pairs (C10): two identical nodes execute the same transfers in two orders (or with one perturbed
+// transaction); the tx / receipt / state roots of the two blocks are logged side by side
+func (r *runner) rootPairs(dir string, seed int64, rounds int) {
+	opt := core.Options{NumAdmins: 4, Balance: "100000000", GasPrice: 1, Seed: 1, Quiet: true}
+	pair, err := lockstep.New(opt, dir)
+	if err != nil {
+		panic(err)
+	}
+	defer pair.Close()
+	r.a, r.b = pair.A, pair.B
+	r.setup(r.a)
+	r.setup(r.b)
+	rng := rand.New(rand.NewSource(seed))
+	r.emit(map[string]interface{}{"ev": "Init", "name": r.plan.Name, "admins": []string{}, "nadmins": 4, "accounts": map[string]string{"u1": ""}, "h": int(r.a.Height()),
+		"bal": map[string]int{"x": 0}, "setupEqual": pair.SetupEqual()})
+	for round := 0; round < rounds; round++ {
+		k := 2 + rng.Intn(3) // distinct senders and receivers: the transfers commute
+		var txs []pb.Transaction
+		for i := 0; i < k; i++ {
+			from := r.a.Account(users[i%len(users)])
+			to := r.a.Account(fmt.Sprintf("recv-%d-%d", round, i)).Addr
+			txs = append(txs, r.a.TransferTx(from, to, fmt.Sprint(1+rng.Intn(50))))
+		}
+		permuted := append([]pb.Transaction{}, txs...)
+		mode := []string{"same", "perm", "perm"}[rng.Intn(3)]
+		if round == rounds-1 {
+			mode = "perturb"
+		}
+		switch mode {
+		case "perm":
+			rng.Shuffle(len(permuted), func(i, j int) { permuted[i], permuted[j] = permuted[j], permuted[i] })
+		case "perturb":
+			i := rng.Intn(k)
+			from := r.a.Account(users[i%len(users)])
+			r.a.SetNonce(from.Addr, permuted[i].GetNonce())
+			permuted[i] = r.a.TransferTx(from, permuted[i].GetTo(), "77")
+		}
+		ra, e1 := r.a.ExecBlock(txs, make([]bool, k), 0)
+		rb, e2 := r.b.ExecBlock(permuted, make([]bool, k), 0)
+		if e1 != nil || e2 != nil {
+			r.emit(map[string]interface{}{"ev": "ExecError", "h": int(r.a.Height()), "cls": "error", "msg": fmt.Sprint(e1, e2), "height": int(r.a.Height())})
+			return
+		}
+		hs := func(t []pb.Transaction) []string {
+			out := []string{}
+			for _, x := range t {
+				out = append(out, x.GetHash().String())
+			}
+			return out
+		}
+		okAll := true
+		for i := range ra.Receipts {
+			if ra.Receipts[i].Status != pb.Receipt_SUCCESS || rb.Receipts[i].Status != pb.Receipt_SUCCESS {
+				okAll = false
+			}
+		}
+		ha, hb := ra.Block.BlockHeader, rb.Block.BlockHeader
+		r.emit(map[string]interface{}{"ev": "RootPair", "mode": mode, "hashesA": hs(txs), "hashesB": hs(permuted), "allOK": okAll,
+			"txA": ha.TxRoot.String(), "txB": hb.TxRoot.String(), "rcA": ha.ReceiptRoot.String(), "rcB": hb.ReceiptRoot.String(),
+			"stA": ha.StateRoot.String(), "stB": hb.StateRoot.String()})
+		if ha.StateRoot.String() != hb.StateRoot.String() {
+			// the two nodes diverged (expected after a perturbation): start the next round from fresh nodes
+			return
+		}
+	}
+}
+
 func main() {
 	plansFile := flag.String("plans", "", "")
 	outDir := flag.String("out", ".", "")
@@ -443,7 +511,11 @@ func main() {
 		surf := surface()
 		rng := rand.New(rand.NewSource(*seed))
 		for i := 0; i < *n; i++ {
-			plans = append(plans, genPlan(rng, surf, fmt.Sprintf("rand-%d-%d", *seed, i), *focus))
+			if *focus == "roots" {
+				plans = append(plans, &Plan{Name: fmt.Sprintf("roots-%d-%d", *seed, i), Seed: rng.Int63n(1 << 30), RootPairs: 12})
+			} else {
+				plans = append(plans, genPlan(rng, surf, fmt.Sprintf("rand-%d-%d", *seed, i), *focus))
+			}
 		}
 	}
 	os.MkdirAll(*outDir, 0755)
@@ -462,7 +534,11 @@ func main() {
 		}
 		r := &runner{plan: p, out: f}
 		dir := fmt.Sprintf("%s/n%d", scratch, i)
-		r.run(dir)
+		if p.RootPairs > 0 {
+			r.rootPairs(dir, p.Seed, p.RootPairs)
+		} else {
+			r.run(dir)
+		}
 		f.Close()
 		os.RemoveAll(dir)
 		fmt.Printf("done %d\n", i)
